@@ -103,6 +103,10 @@ def get_iter(interp, v, node=None):
             v.iterators = []
         v.iterators.append(it)
         return it
+    if isinstance(v, SDeque):
+        it = SrcIter(v.arr, v.hi, 'deque', origin=v.origin)
+        it.pos = v.lo
+        return it
     if isinstance(v, Seq) and getattr(v, 'live', False):
         return LiveSeqIter(v, 'live-seq')
     if isinstance(v, Seq):
@@ -1280,6 +1284,22 @@ class ASet(object):
         self.has = smt.fresh(nm + '_has', VB)
 
 
+class SDeque(object):
+    """collections.deque() used as a FIFO window (append / popleft / len / iteration): the elements arr[lo:hi] (T6)"""
+
+    def __init__(self):
+        self.arr, self.lo, self.hi = smt.fresh_arr('deque'), z3.IntVal(0), z3.IntVal(0)
+        self.origin = 'Fresh'
+
+    @property
+    def len(self):
+        return z3.simplify(self.hi - self.lo)
+
+    def havoc(self, interp, nm):
+        self.arr, self.lo, self.hi = smt.fresh_arr(nm), smt.fresh_int(nm + '_lo'), smt.fresh_int(nm + '_hi')
+        interp.ctx.assume(z3.And(0 <= self.lo, self.lo <= self.hi))
+
+
 class DictSlot(object):
     def __init__(self, d, ck):
         self.d, self.ck = d, ck
@@ -1629,6 +1649,21 @@ def getattr_builtin(interp, obj, attr, node=None):
                 return SCell(z3.Select(o.val, ck))
             return args[1] if len(args) > 1 else None
         return Builtin('dict.get', _get)
+    if isinstance(obj, SDeque):
+        def _dq(interp, args, kw, node_, o=obj, a=attr):
+            interp.log_mutation(a, o, node_)
+            if a == 'append':
+                o.arr = z3.Store(o.arr, o.hi, as_v(args[0]))
+                o.hi = z3.simplify(o.hi + 1)
+                return None
+            if a == 'popleft':
+                if interp.ctx.branch(o.hi - o.lo <= 0, 'popleft on an empty deque'):
+                    interp.raise_('IndexError', 'pop from an empty deque', node_)
+                v = SCell(z3.Select(o.arr, o.lo))
+                o.lo = z3.simplify(o.lo + 1)
+                return v
+            raise Unsupported('deque method %s' % a)
+        return Builtin('deque.' + attr, _dq)
     if isinstance(obj, ASet) and attr == 'add':
         def _add(interp, args, kw, node_, o=obj):
             interp.log_mutation('add', o, node_)
@@ -1894,7 +1929,7 @@ def _len(interp, args, kw, node):
         return len(v)
     if isinstance(v, PyList):
         return len(v.items)
-    if isinstance(v, Seq):
+    if isinstance(v, (Seq, SDeque)):
         n = z3.simplify(v.len)
         return n.as_long() if z3.is_int_value(n) else SInt(n)
     if isinstance(v, SCell):
@@ -2265,7 +2300,14 @@ EXTERNAL = {
     ('itertools', 'count'): BUILTINS['count'], ('itertools', 'zip_longest'): BUILTINS['zip_longest'],
     ('itertools', 'islice'): BUILTINS['islice'], ('itertools', 'groupby'): BUILTINS['groupby'],
     ('itertools', 'product'): BUILTINS['product'],
+    ('collections', 'deque'): Builtin('collections.deque', lambda interp, args, kw, node: _new_deque(interp, args, node)),
 }
+
+
+def _new_deque(interp, args, node):
+    if args:
+        raise Unsupported('deque(iterable)')
+    return SDeque()
 
 
 def lookup_external(modname, name):
